@@ -323,7 +323,7 @@ def run_case(case):
             # ids in use are asked for again (last, so that a wrongly accepted one disturbs nothing above)
             ids = [s.id for s in cell.morphology.segments]
             probes = []
-            for z in [x for x in dict.fromkeys([max(ids), min(ids), ids[0], ids[-1], ids[len(ids) // 2]] + ids) if x][:12] if ids else []:
+            for z in (list(dict.fromkeys([0] * (0 in ids) + [max(ids), min(ids), ids[0], ids[-1], ids[len(ids) // 2]] + ids))[:12] if ids else []):
                 try:
                     cell.add_segment(prox=None, dist=[0, 0, 0, 1], seg_id=z, parent=cell.morphology.segments[0],
                                      use_convention=False, optimise_segment_groups=False)
